@@ -237,7 +237,30 @@ def gen_unit(rng, nids, depth, maxlen):
         ty = {'L': 'int', 'u': 'unsigned short', 'U': 'unsigned', 'u8': 'unsigned char'}[pfx]
         L.append('const %s *wstr%d = %s"%s";' % (ty, k, pfx, s))
         strs.append(('wstr%d' % k, pfx, s))
-    return '\n'.join(L) + '\n', exp, strs
+    # a block-scope declaration with linkage denotes the entity of the visible file-scope declaration (6.2.2p4), also when a local hides it
+    # in between and when that entity has an assembler name; the symbol a static pointer is bound to shows which entity was selected
+    syms = []
+    for j in range(4):
+        g = 'zq9lk%d' % j
+        lab = rng.choice([None, 'zq9real_%d' % j])
+        fn = j % 2 == 1
+        if fn:
+            L.append('int %s(int)%s;' % (g, ' __asm__("%s")' % lab if lab else ''))
+        else:
+            # not static: behind a hiding local the inner extern would get external linkage (6.2.2p4, p7: undefined)
+            L.append('%sint %s%s%s;' % (rng.choice(['', 'extern ']), g, ' __asm__("%s")' % lab if lab else '', ''))
+        sym = lab or g
+        L.append('void lk%d(int %s_p) {' % (j, g))
+        if fn:
+            L.append('\tstatic int (*chklk%d_a)(int) = %s;' % (j, g))
+            L.append('\t{ int %s = %s_p; (void)%s; { int %s(int); static int (*chklk%d_b)(int) = %s; { extern int %s(int); static int (*chklk%d_c)(int) = &%s; } } }' % (g, g, g, g, j, g, g, j, g))
+        else:
+            L.append('\tstatic int *chklk%d_a = &%s;' % (j, g))
+            L.append('\t{ int %s = %s_p; (void)%s; { extern int %s; static int *chklk%d_b = &%s; { long %s = 1; (void)%s; { extern int %s; static int *chklk%d_c = &%s; } } } }' % (g, g, g, g, j, g, g, g, g, j, g))
+        L.append('}')
+        for sfx in 'abc':
+            syms.append(('chklk%d_%s' % (j, sfx), sym))
+    return '\n'.join(L) + '\n', exp, strs, syms
 
 
 def decode_c_string(s):
@@ -247,7 +270,7 @@ def decode_c_string(s):
 def _unit(args):
     exe, idx, seed, nids, depth, maxlen, wd = args
     rng = random.Random(seed)
-    src, exp, strs = gen_unit(rng, nids, depth, maxlen)
+    src, exp, strs, syms = gen_unit(rng, nids, depth, maxlen)
     p = os.path.join(wd, 'u%d.c' % idx)
     common.write(p, src)
     r = common.cproc(exe, p, timeout=120, cpu=100)
@@ -272,6 +295,14 @@ def _unit(args):
             res['viol'].append(('missing', '%s not emitted' % n))
         elif got[n] != (v & 0xffffffff):
             res['viol'].append(('value', '%s resolved to %d, the scope rules select %d' % (n, got[n], v)))
+    for name, sym in syms:
+        dd = [d for d in m.data if re.fullmatch(r'(?:\.L)?%s(?:\.\d+)?' % name, d.name)]
+        if not dd:
+            res['viol'].append(('missing', '%s not emitted' % name))
+            continue
+        img, rel = qbeil.data_image(dd[0])
+        if 0 not in rel or rel[0][0] != sym or rel[0][1] != 0:
+            res['viol'].append(('linkage-binding', '%s is bound to %s, the visible declaration with linkage denotes %s' % (name, rel.get(0), sym)))
     # strings
     targets = {}
     for name, pfx, s in strs:
